@@ -94,6 +94,17 @@ func c26Gen(r *rng.Rand, i int, tier string) interface{} {
 		}
 		in.Ops = append(in.Ops, c26x.Op{Op: "connect", R: 0}, c26x.Op{Op: "hold", R: 0}, c26x.Op{Op: "commit"},
 			c26x.Op{Op: "connect", R: 1}, c26x.Op{Op: "release"}, c26x.Op{Op: "commit"})
+	case kind < 94 && kind >= 92: // a replica a full channel behind whose stream then fails: the master must resume (C26-2's shape)
+		if n < 2 {
+			n = 2
+			in.Addrs = []int{10, 11}
+		}
+		x := r.Intn(n)
+		for j := 0; j < n; j++ {
+			in.Ops = append(in.Ops, c26x.Op{Op: "connect", R: j})
+		}
+		in.Ops = append(in.Ops, c26x.Op{Op: "stall", R: x}, c26x.Op{Op: "commit"}, c26x.Op{Op: "behindfail", R: x, N: 1 + r.Intn(3)},
+			c26x.Op{Op: "commit"})
 	case kind < 94: // same client address twice (F22c)
 		if n < 2 {
 			n = 2
@@ -242,7 +253,7 @@ func c26Run(raw json.RawMessage) (res Result, err error) {
 			if seenOther {
 				churn = true
 			}
-		case "fail":
+		case "fail", "behindfail":
 			churn = true
 			seenOther = true
 		case "commit":
